@@ -31,8 +31,8 @@ structure StartR (s : BSt) : Prop where
   rc : s.cfg.replayCatchesPerEvent = true
 
 /-- every reachable state satisfies bundle A's invariants and the ring-potential invariant -/
-theorem StartR.run {s0 : BSt} (h : StartR s0) (ops : List Op) : Inv (runOps s0 ops) ∧ InvR (runOps s0 ops) :=
-  ⟨h.fresh.inv.run ops, (h.fresh.invR h.rc).run ops⟩
+theorem StartR.run {s0 : BSt} (h : StartR s0) (ops : List Op) : Inv (runOps s0 ops) ∧ InvRg (runOps s0 ops) :=
+  ⟨h.fresh.inv.run ops, (h.fresh.invRg h.rc).run ops⟩
 
 /-- **the invariant:** in every reachable state, for every sink and statement id: the `write` events of that id at that
     sink (any level) plus what the backtrace rings still hold of it (occurrences in the ring of logger `j` × multiplicity
@@ -48,7 +48,7 @@ theorem C10_ring_potential (s0 : BSt) (h0 : StartR s0) (ops : List Op) (sid id :
 theorem C10_log_at_most_once_any_level (s0 : BSt) (h0 : StartR s0) (ops : List Op) (i : Nat) (st : Stmt)
     (hm : st ∈ ((runOps s0 ops).th i).accepted) (hk : st.kind = .log) (sid : Nat) :
     bwcount (runOps s0 ops).log sid st.id ≤ ((runOps s0 ops).lgOf st.lg).sinks.count sid :=
-  InvR.at_most_once (h0.run ops).1 (h0.run ops).2 i st hm (by rw [hk]; rfl) sid
+  InvRg.at_most_once (h0.run ops).1 (h0.run ops).2 i st hm (by rw [hk]; rfl) sid
 
 /-- **a backtrace statement is handed to a sink at most once per occurrence of the sink, over the WHOLE event log and
     every schedule** (the whole-log form left open in `Props/C10Replay.lean`) -/
@@ -62,7 +62,7 @@ theorem C10_backtrace_at_most_once_per_flush (s0 : BSt) (h0 : StartR s0) (ops : 
 theorem C10_nothing_handed_before_pop (s0 : BSt) (h0 : StartR s0) (ops : List Op) (i : Nat) (st : Stmt)
     (hm : st ∈ ((runOps s0 ops).th i).buf ++ ((runOps s0 ops).th i).qStmts) (hk : st.kind = .log) (sid : Nat) :
     bwcount (runOps s0 ops).log sid st.id = 0 :=
-  InvR.unpopped_unwritten (h0.run ops).1 (h0.run ops).2 i st hm (by rw [hk]; rfl) sid
+  InvRg.unpopped_unwritten (h0.run ops).1 (h0.run ops).2 i st hm (by rw [hk]; rfl) sid
 
 /-- a sink listed once gets a backtrace statement at most once, and a sink the logger does not have never gets it -/
 theorem C10_backtrace_once_or_never (s0 : BSt) (h0 : StartR s0) (ops : List Op) (i : Nat) (st : Stmt)
